@@ -12,6 +12,18 @@ MUTANTS = [
     ("C20", "volume-2d-dot", "iodata/utils.py",
      "return np.linalg.norm(np.cross(cellvecs[0], cellvecs[1]))",
      "return np.linalg.norm(cellvecs[0]) * np.linalg.norm(cellvecs[1])"),
+    ("C10", "signs-from-wrong-table", "iodata/convert.py",
+     "signs = [signs1[i] * sign2 for i, sign2 in zip(permutation, signs2)]",
+     "signs = [signs2[i] * sign2 for i, sign2 in zip(permutation, signs2)]"),
+    ("C10", "reverse-signs", "iodata/convert.py",
+     "signs = [signs2[i] * sign1 for i, sign1 in zip(permutation, signs1)]",
+     "signs = [signs1[i] * sign1 for i, sign1 in zip(permutation, signs1)]"),
+    ("C10", "reverse-perm-not-inverted", "iodata/convert.py",
+     "permutation = [conv2.index(el1) for el1 in conv1]",
+     "permutation = [conv1.index(el2) for el2 in conv2]"),
+    ("C10", "wfn-table-duplicate", "iodata/formats/wfn.py",
+     "'xxyyy', 'xxxzz', 'xxxyz', 'xxxyy', 'xxxxz', 'xxxxy', 'xxxxx'],\n}",
+     "'xxyyy', 'xxxzz', 'xxxyz', 'xxxyy', 'xxxxz', 'xxxxz', 'xxxxx'],\n}"),
     ("C20", "naturals-no-overlap", "iodata/utils.py",
      "evals, evecs = eigh(sds, overlap)", "evals, evecs = eigh(sds)"),
 ]
